@@ -71,45 +71,39 @@ def plain_gap(g):
 # ---------------------------------------------------------------------------
 # neutralisers: f(ref, src) -> number of places rewritten
 
+def _ws_only(g):
+    return g != '' and not has_comment(g)
+
+
 def n_getset_ident(ref, src):
-    """identifier spelled get/set (not an accessor keyword) followed by white space and an
-    identifier-like token: lexed as accessor keyword"""
+    """identifier spelled get/set (not an accessor keyword) followed by white space, a token that
+    could be a property name and `(`: still lexed as accessor keyword (the other shapes were fixed
+    in eb64c8b)"""
     acc = set(n.first for n in walk(ref.root) if n.kind in ('Getter', 'Setter'))
     n = 0
-    for i, k in enumerate(ref.tokens):
-        if k.type == 'ident' and k.text in ('get', 'set') and i not in acc:
-            g = src.gaps[i + 1]
-            if g and i + 1 < len(ref.tokens) and ref.tokens[i + 1].type in ('ident', 'keyword'):
+    toks = ref.tokens
+    for i, k in enumerate(toks):
+        if k.type == 'ident' and k.text in ('get', 'set') and i not in acc and i + 2 < len(toks):
+            if _ws_only(src.gaps[i + 1]) and toks[i + 1].type in ('ident', 'keyword', 'str', 'num') \
+                    and toks[i + 2].text == '(' and not has_comment(src.gaps[i + 2]):
                 src.toks[i] = 'ge_' if k.text == 'get' else 'se_'
                 n += 1
     return n
 
 
 def n_accessor_gap(ref, src):
-    """accessor keyword separated from its property name by anything but exactly one
-    white-space / line-terminator character"""
+    """a comment between the accessor keyword and its property name, or between the name and `(`
+    (plain white space of any length was fixed in eb64c8b)"""
     n = 0
     for node in walk(ref.root):
         if node.kind in ('Getter', 'Setter'):
-            g = src.gaps[node.first + 1]
-            # the lexer recognises the keyword only in front of exactly one character matched by the
-            # regex class \s (which e.g. lacks the BOM, an ES5 white space)
-            if not (len(g) == 1 and re.match(r'\s', g)):
+            for gi, repl in ((node.first + 1, ' '), (node.first + 2, '')):
+                if has_comment(src.gaps[gi]):
+                    src.gaps[gi] = repl
+                    n += 1
+            # a numeric name spelled with a leading dot directly after the keyword (`get.5(){}`)
+            if src.gaps[node.first + 1] == '' and node.fields[0].kind == 'Num':
                 src.gaps[node.first + 1] = ' '
-                n += 1
-    return n
-
-
-def n_accessor_nonident_name(ref, src):
-    """get/set accessor whose property name is a string or numeric literal"""
-    n = 0
-    for node in walk(ref.root):
-        if node.kind in ('Getter', 'Setter'):
-            name = node.fields[0]
-            if name.kind in ('Str', 'Num'):
-                src.toks[name.first] = 'p_'
-                if src.gaps[name.first] == '':
-                    src.gaps[name.first] = ' '
                 n += 1
     return n
 
@@ -173,24 +167,18 @@ def _headers(ref):
 
 
 def n_header_markers(ref, src):
-    """line terminator or comment between an if/for/while/with keyword and its `(`, or between
-    the closing `)` and a body that starts with a regular expression literal"""
+    """line terminator or comment between the closing `)` of an if/for/while/with header and a body
+    that starts with a regular expression literal (layout before and inside the parentheses was
+    fixed in 7c5b67e)"""
     n = 0
     for kw, lp, rp, kind in _headers(ref):
         body_first = rp + 1
         if body_first >= len(ref.tokens) or ref.tokens[body_first].type != 'regex':
             continue
-        for gi in (lp, body_first):
-            g = src.gaps[gi]
-            if has_lt(g) or has_comment(g):
-                src.gaps[gi] = ' '
-                n += 1
-        # comments / line terminators just inside the parentheses confuse the same look-behind
-        for gi in (lp + 1, rp):
-            g = src.gaps[gi]
-            if has_lt(g) or has_comment(g):
-                src.gaps[gi] = ' '
-                n += 1
+        g = src.gaps[body_first]
+        if has_lt(g) or has_comment(g):
+            src.gaps[body_first] = ' '
+            n += 1
     return n
 
 
@@ -265,7 +253,6 @@ def _tok_index_at(ref, pos):
 NEUTRALISERS = [
     ('c03.getset_ident_lexed_as_accessor', n_getset_ident),
     ('c03.accessor_keyword_gap', n_accessor_gap),
-    ('c03.accessor_nonident_name', n_accessor_nonident_name),
     ('c04.restricted_kw_lt_semicolon', n_restricted_kw_lt_semicolon),
     ('c04.reserved_prop_restricted_lt', n_reserved_prop_restricted_lt),
     ('c05.header_paren_markers', n_header_markers),
